@@ -27,38 +27,62 @@ def runCase (c : Case) : List String :=
 
 end Drv
 
+/-- answers one case -/
+def answerCase (out : IO.FS.Stream) (c : Drv.Case) : IO Unit := do
+  out.putStrLn s!"CASE {c.id}"
+  let lines ← match c.kind with
+    | "readwig" | "readbed" | "wfwig" | "wfbed" | "fileof" =>
+      match (c.records "FILEHEX").head?, (c.records "FILE").head? with
+      | some l, _ =>
+        let bytes : ByteArray := (Drv.unhex (l.getD 1 "-")).foldl (fun a b => a.push (UInt8.ofNat b)) ByteArray.empty
+        pure (match c.kind with
+          | "readwig" => Drv.readWigFile bytes c
+          | "readbed" => Drv.readBedFile bytes c
+          | "wfwig" => Drv.wfWigFile bytes
+          | "fileof" => Drv.fileOfCase bytes c
+          | _ => Drv.wfBedFile bytes)
+      | none, some l =>
+        try
+          let bytes ← IO.FS.readBinFile (l.getD 1 "")
+          pure (match c.kind with
+            | "readwig" => Drv.readWigFile bytes c
+            | "readbed" => Drv.readBedFile bytes c
+            | "wfwig" => Drv.wfWigFile bytes
+            | "fileof" => Drv.fileOfCase bytes c
+            | _ => Drv.wfBedFile bytes)
+        catch _ => pure ["R no-such-file"]
+      | none, none => pure ["R no-file-line"]
+    | _ => pure (Drv.runCase c)
+  for l in lines do out.putStrLn l
+  out.putStrLn "END"
+
+/-- reads the cases file one line at a time (a thorough run's file is hundreds of megabytes) and answers each case as
+its `END` line arrives; the line grammar is `Drv.parseCases`'s -/
+partial def serve (h : IO.FS.Handle) (out : IO.FS.Stream) (cur : Option Drv.Case) : IO Unit := do
+  let raw ← h.getLine
+  if raw.isEmpty then return ()
+  let line := raw.trimAscii.toString
+  if line.isEmpty || line.startsWith "#" then serve h out cur
+  else
+    let toks := Drv.tokens line
+    match toks with
+    | "CASE" :: id :: rest =>
+      serve h out (some { id := id, kind := rest.headD "", args := rest.drop 1, lines := [] })
+    | "END" :: _ =>
+      match cur with
+      | some c => answerCase out { c with lines := c.lines.reverse }; serve h out none
+      | none => serve h out none
+    | _ =>
+      match cur with
+      | some c => serve h out (some { c with lines := toks :: c.lines })
+      | none => serve h out none
+
 def main (args : List String) : IO UInt32 := do
   match args with
   | [path] =>
-    let text ← IO.FS.readFile path
     let out ← IO.getStdout
-    for c in Drv.parseCases text do
-      out.putStrLn s!"CASE {c.id}"
-      let lines ← match c.kind with
-        | "readwig" | "readbed" | "wfwig" | "wfbed" | "fileof" =>
-          match (c.records "FILEHEX").head?, (c.records "FILE").head? with
-          | some l, _ =>
-            let bytes : ByteArray := (Drv.unhex (l.getD 1 "-")).foldl (fun a b => a.push (UInt8.ofNat b)) ByteArray.empty
-            pure (match c.kind with
-              | "readwig" => Drv.readWigFile bytes c
-              | "readbed" => Drv.readBedFile bytes c
-              | "wfwig" => Drv.wfWigFile bytes
-              | "fileof" => Drv.fileOfCase bytes c
-              | _ => Drv.wfBedFile bytes)
-          | none, some l =>
-            try
-              let bytes ← IO.FS.readBinFile (l.getD 1 "")
-              pure (match c.kind with
-                | "readwig" => Drv.readWigFile bytes c
-                | "readbed" => Drv.readBedFile bytes c
-                | "wfwig" => Drv.wfWigFile bytes
-                | "fileof" => Drv.fileOfCase bytes c
-                | _ => Drv.wfBedFile bytes)
-            catch _ => pure ["R no-such-file"]
-          | none, none => pure ["R no-file-line"]
-        | _ => pure (Drv.runCase c)
-      for l in lines do out.putStrLn l
-      out.putStrLn "END"
+    let h ← IO.FS.Handle.mk path .read
+    serve h out none
     out.flush
     return 0
   | _ =>
